@@ -21,7 +21,8 @@ Definition tp_ok (caller : acct) (c : call) (s s' : pst) : Prop :=
     (forall v sp, alw s' v a sp = alw s v a sp \/
                   (sp = caller /\ exists to sh, c = CTransferFromShares v a to sh /\
                                  0 < sh <= alw s v a sp /\ alw s' v a sp = alw s v a sp - sh)) /\
-    pool_kept s s' a /\ bcalls_kept s s' a.
+    pool_kept s s' a /\ bcalls_kept c s s' a /\
+    tok s a <= tok s' a /\ tka s' a = tka s a.
 
 Ltac zb :=
   repeat match goal with
@@ -38,14 +39,14 @@ Ltac zb :=
          end.
 
 Lemma pool_kept_refl s a : pool_kept s s a.
-Proof. intros id amt fee H. exists fee. split; [exact H|lia]. Qed.
-Lemma bcalls_kept_refl s a : bcalls_kept s s a.
-Proof. intros n r x H. exact H. Qed.
+Proof. intros id amt fee tk H. exists fee. split; [exact H|lia]. Qed.
+Lemma bcalls_kept_refl c s a : bcalls_kept c s s a.
+Proof. intros n r x t H. left. exact H. Qed.
 
 Lemma pool_kept_eq s s' a : pool s' = pool s -> pool_kept s s' a.
-Proof. intros E id amt fee H. exists fee. rewrite E. split; [exact H|lia]. Qed.
-Lemma bcalls_kept_eq s s' a : bcalls s' = bcalls s -> bcalls_kept s s' a.
-Proof. intros E n r x H. rewrite E. exact H. Qed.
+Proof. intros E id amt fee tk H. exists fee. rewrite E. split; [exact H|lia]. Qed.
+Lemma bcalls_kept_eq c s s' a : bcalls s' = bcalls s -> bcalls_kept c s s' a.
+Proof. intros E n r x t H. left. rewrite E. exact H. Qed.
 
 (* a state change that leaves everything of third parties alone *)
 Lemma tp_ok_same caller c s : tp_ok caller c s s.
@@ -96,6 +97,7 @@ Lemma ts_spec s v from to sh s' :
   rwd_nonneg s -> 0 < sh -> transfer_shares s v from to sh = Ok s' ->
   (forall a, bal s a <= bal s' a) /\
   unb s' = unb s /\ alw s' = alw s /\ pool s' = pool s /\ bcalls s' = bcalls s /\ wdr s' = wdr s /\
+  (tok s' = tok s /\ tka s' = tka s /\ claims s' = claims s /\ next_tx s' = next_tx s /\ next_bc s' = next_bc s) /\
   (forall a v', (a <> from \/ v' <> v) -> dlg s a v' <= dlg s' a v') /\
   dlg s from v - sh <= dlg s' from v /\
   (forall a v', rwd s' a v' = rwd s a v' \/
@@ -122,10 +124,12 @@ Qed.
 (* every method, every argument: third parties *)
 
 Definition wf_state (s : pst) : Prop :=
-  rwd_nonneg s /\ (forall id, next_tx s < id -> pool s id = None) /\ (forall n, next_bc s < n -> bcalls s n = None).
+  rwd_nonneg s /\ (forall id, next_tx s < id -> pool s id = None) /\ (forall n, next_bc s < n -> bcalls s n = None) /\
+  (forall v o sp, 0 <= alw s v o sp) /\
+  (forall n r x, claims s n = Some (PSendToFx r x) -> 0 <= x).
 
-Ltac unf_all := unfold withdraw_rewards, pay, set_bal, set_dlg, set_rwd, set_alw, set_unb, set_rrd, set_pool, set_bcalls,
-                       up1, up2, up3 in *; cbn in *.
+Ltac unf_all := unfold withdraw_rewards, pay, payt, set_bal, set_dlg, set_rwd, set_alw, set_unb, set_rrd, set_pool, set_bcalls,
+                       set_tok, set_tka, set_claims, up1, up2, up3 in *; cbn in *.
 
 (* projections through withdraw_rewards, without unfolding it *)
 Lemma wrp_bal s d v x : bal (withdraw_rewards s d v) x = if Z.eqb x (wdr s d) then bal s x + rwd s d v else bal s x.
@@ -141,13 +145,16 @@ Lemma wrp_pool s d v : pool (withdraw_rewards s d v) = pool s. Proof. reflexivit
 Lemma wrp_bcalls s d v : bcalls (withdraw_rewards s d v) = bcalls s. Proof. reflexivity. Qed.
 Lemma wrp_next_tx s d v : next_tx (withdraw_rewards s d v) = next_tx s. Proof. reflexivity. Qed.
 Lemma wrp_next_bc s d v : next_bc (withdraw_rewards s d v) = next_bc s. Proof. reflexivity. Qed.
+Lemma wrp_tok s d v : tok (withdraw_rewards s d v) = tok s. Proof. reflexivity. Qed.
+Lemma wrp_tka s d v : tka (withdraw_rewards s d v) = tka s. Proof. reflexivity. Qed.
+Lemma wrp_claims s d v : claims (withdraw_rewards s d v) = claims s. Proof. reflexivity. Qed.
 
 Ltac proj :=
   repeat progress
-    (cbn [bal dlg rwd wdr alw unb rrd isval pool next_tx bcalls next_bc xready switch
-          set_bal set_dlg set_rwd set_alw set_unb set_rrd set_pool set_bcalls pay];
+    (cbn [bal dlg rwd wdr alw unb rrd isval pool next_tx bcalls next_bc xready switch tok tka claims
+          set_bal set_dlg set_rwd set_alw set_unb set_rrd set_pool set_bcalls set_tok set_tka set_claims pay payt];
      rewrite ?wrp_bal, ?wrp_rwd, ?wrp_dlg, ?wrp_wdr, ?wrp_alw, ?wrp_unb, ?wrp_rrd, ?wrp_pool, ?wrp_bcalls,
-             ?wrp_next_tx, ?wrp_next_bc;
+             ?wrp_next_tx, ?wrp_next_bc, ?wrp_tok, ?wrp_tka, ?wrp_claims;
      unfold up1, up2, up3).
 
 Ltac nonneg N :=
@@ -159,7 +166,8 @@ Ltac nonneg N :=
              end
          end.
 
-(* third-party clauses when only entries keyed by the caller (and balances upward) change *)
+(* third-party clauses when only entries keyed by the caller (and balances upward) change;
+   leaves the pool and bridge-call clauses *)
 Ltac tp_simple N :=
   let a := fresh "a" in let Ha := fresh "Ha" in let Hf := fresh "Hf" in
   intros a Ha;
@@ -168,35 +176,40 @@ Ltac tp_simple N :=
       assert (Hf : Z.eqb a c = false) by (apply Z.eqb_neq; exact Ha')
   end;
   repeat split;
-  [ proj; rewrite ?Hf; cbn [andb]; proj; eqbs; nonneg N; fin
-  | intros ?; proj; rewrite ?Hf; cbn [andb]; eqbs; fin
-  | intros ?; left; proj; rewrite ?Hf; cbn [andb]; eqbs; fin
-  | intros ?; left; proj; rewrite ?Hf; cbn [andb]; eqbs; fin
-  | intros ? ?; left; proj; rewrite ?Hf; cbn [andb]; eqbs; fin
-  | idtac | idtac ].
+  first [ match goal with |- pool_kept _ _ _ => idtac | |- bcalls_kept _ _ _ _ => idtac end
+        | (intros; first [left|idtac]; proj; rewrite ?Hf; cbn [andb]; proj; eqbs; nonneg N; fin) ].
+
+Lemma take_tok_spec s a x s1 : take_tok s a x = Some s1 ->
+  s1 = set_tka (payt s a (- x)) (up1 (tka (payt s a (- x))) a (tka (payt s a (- x)) a - x)) /\ x <= tka s a /\ x <= tok s a.
+Proof.
+  unfold take_tok. destruct ((tka s a <? x) || (tok s a <? x)) eqn:E; [discriminate|].
+  intro H. inversion H. zb. repeat split; lia.
+Qed.
 
 Lemma method_run_tp caller value c s s' :
   0 <= value -> wf_state s -> method_run caller value c s = Ok s' -> tp_ok caller c s s'.
 Proof.
-  intros Hv (N & PF & BF) H. destruct c; cbn [method_run] in H.
+  intros Hv (N & PF & BF & AN & CN) H. destruct c; cbn [method_run] in H.
   1-3,11-15: (inversion H; subst; apply tp_ok_same).
   - (* approveShares *)
     ifs H. inversion H; subst; clear H. tp_simple N; [apply pool_kept_eq; reflexivity|apply bcalls_kept_eq; reflexivity].
   - (* transferShares *)
-    ifs H. zb. destruct (ts_spec _ _ _ _ _ _ N E H) as (B & U & A & P & BC & W & D & DS & R).
+    ifs H. zb. destruct (ts_spec _ _ _ _ _ _ N E H) as (B & U & A & P & BC & W & (T1 & T2 & _) & D & DS & R).
     intros a Ha. repeat split.
     + apply B.
     + intro v0. rewrite U. lia.
     + intro v0. left. apply D. left. exact Ha.
     + intro v0. apply R.
     + intros v0 sp. left. rewrite A. reflexivity.
-    + intros id amt fee Hp. exists fee. rewrite P. split; [exact Hp|lia].
-    + intros n r x Hb. rewrite BC. exact Hb.
+    + apply pool_kept_eq. exact P.
+    + apply bcalls_kept_eq. exact BC.
+    + rewrite T1. lia.
+    + rewrite T2. reflexivity.
   - (* transferFromShares *)
     ifs H. zb.
     set (s0 := set_alw s (up3 (alw s) v from caller (alw s v from caller - sh))) in *.
     assert (N0 : rwd_nonneg s0) by exact N.
-    destruct (ts_spec _ _ _ _ _ _ N0 E H) as (B & U & A & P & BC & W & D & DS & R).
+    destruct (ts_spec _ _ _ _ _ _ N0 E H) as (B & U & A & P & BC & W & (T1 & T2 & _) & D & DS & R).
     intros a Ha. repeat split.
     + apply (B a).
     + intro v0. rewrite U. cbn. lia.
@@ -210,8 +223,10 @@ Proof.
       destruct (Z.eqb v0 v && Z.eqb a from && Z.eqb sp caller) eqn:K.
       * right. zb. subst. split; [reflexivity|]. exists to, sh. repeat split; lia.
       * left. reflexivity.
-    + intros id amt fee Hp. exists fee. rewrite P. split; [exact Hp|lia].
-    + intros n r x Hb. rewrite BC. exact Hb.
+    + apply pool_kept_eq. exact P.
+    + apply bcalls_kept_eq. exact BC.
+    + rewrite T1. cbn. lia.
+    + rewrite T2. reflexivity.
   - (* withdraw *)
     ifs H. inversion H; subst; clear H. tp_simple N; [apply pool_kept_eq; reflexivity|apply bcalls_kept_eq; reflexivity].
   - (* delegateV2 *)
@@ -221,15 +236,17 @@ Proof.
   - (* undelegateV2 *)
     ifs H; inversion H; subst; clear H; tp_simple N; try (apply pool_kept_eq; reflexivity); try (apply bcalls_kept_eq; reflexivity).
   - (* cancelSendToExternal *)
-    ifs H. destruct (pool s txid) as [[[sd am] fe]|] eqn:P; [|discriminate]. ifs H. inversion H; subst; clear H. zb. subst sd.
-    tp_simple N.
-    + intros id amt fee Hp. exists fee. split; [|lia]. unf_all.
-      destruct (Z.eqb id txid) eqn:Q; [|exact Hp]. zb. subst. rewrite P in Hp. inversion Hp. congruence.
-    + apply bcalls_kept_eq; reflexivity.
+    ifs H. destruct (pool s txid) as [[[[sd am] fe] tk]|] eqn:P; [|discriminate].
+    destruct (negb (sd =? caller)) eqn:SD; [discriminate|]. zb. subst sd.
+    destruct tk; inversion H; subst; clear H; tp_simple N;
+      try (apply bcalls_kept_eq; reflexivity);
+      (intros id amt fee tk0 Hp; exists fee; split; [|lia]; unf_all;
+       destruct (Z.eqb id txid) eqn:Q; [|exact Hp]; zb; subst; rewrite P in Hp; inversion Hp; congruence).
   - (* increaseBridgeFee *)
-    ifs H. destruct (pool s txid) as [[[sd am] fe]|] eqn:P; [|discriminate]. inversion H; subst; clear H. zb.
+    ifs H. destruct (pool s txid) as [[[[sd am] fe] tk]|] eqn:P; [|discriminate]. destruct tk; [discriminate|].
+    inversion H; subst; clear H. zb.
     tp_simple N.
-    + intros id amt fee0 Hp. unf_all.
+    + intros id amt fee0 tk0 Hp. unf_all.
       destruct (Z.eqb id txid) eqn:Q.
       * zb. subst. rewrite P in Hp. inversion Hp; subst. eexists. split; [reflexivity|lia].
       * exists fee0. split; [exact Hp|lia].
@@ -237,16 +254,53 @@ Proof.
   - (* crossChain *)
     ifs H. inversion H; subst; clear H. zb.
     tp_simple N.
-    + intros id amt0 fee0 Hp. exists fee0. split; [|lia]. unf_all.
+    + intros id amt0 fee0 tk0 Hp. exists fee0. split; [|lia]. unf_all.
       destruct (Z.eqb id (next_tx s + 1)) eqn:Q; [|exact Hp]. zb. subst. rewrite PF in Hp by lia. discriminate.
     + apply bcalls_kept_eq; reflexivity.
   - (* bridgeCall *)
     ifs H. inversion H; subst; clear H.
     tp_simple N.
     + apply pool_kept_eq; reflexivity.
-    + intros n r x Hb. unf_all.
+    + intros n r x t Hb. left. unf_all.
       destruct (Z.eqb n (next_bc s + 1)) eqn:Q; [|exact Hb]. zb. subst. rewrite BF in Hb by lia. discriminate.
-  - discriminate.
+  - (* crossChain, ERC-20 *)
+    ifs H. destruct (take_tok s caller (amt + fee)) as [s1|] eqn:T; [|discriminate].
+    destruct (take_tok_spec _ _ _ _ T) as (-> & _ & _). inversion H; subst; clear H. zb.
+    tp_simple N.
+    + intros id amt0 fee0 tk0 Hp. exists fee0. split; [|lia]. unf_all.
+      destruct (Z.eqb id (next_tx s + 1)) eqn:Q; [|exact Hp]. zb. subst. rewrite PF in Hp by lia. discriminate.
+    + apply bcalls_kept_eq; reflexivity.
+  - (* increaseBridgeFee, ERC-20 *)
+    ifs H. destruct (take_tok s caller fee) as [s1|] eqn:T; [|discriminate].
+    destruct (take_tok_spec _ _ _ _ T) as (-> & _ & _).
+    match type of H with context [pool ?x txid] => change (pool x txid) with (pool s txid) in H end.
+    destruct (pool s txid) as [[[[sd am] fe] tk]|] eqn:P; [|discriminate]. destruct tk; [|discriminate].
+    inversion H; subst; clear H. zb.
+    tp_simple N.
+    + intros id amt fee0 tk0 Hp. unf_all.
+      destruct (Z.eqb id txid) eqn:Q.
+      * zb. subst. rewrite P in Hp. inversion Hp; subst. eexists. split; [reflexivity|lia].
+      * exists fee0. split; [exact Hp|lia].
+    + apply bcalls_kept_eq; reflexivity.
+  - (* bridgeCall, ERC-20 *)
+    ifs H. inversion H; subst; clear H. zb.
+    tp_simple N.
+    + apply pool_kept_eq; reflexivity.
+    + intros n r x t Hb. left. unf_all.
+      destruct (Z.eqb n (next_bc s + 1)) eqn:Q; [|exact Hb]. zb. subst. rewrite BF in Hb by lia. discriminate.
+  - (* executeClaim *)
+    ifs H. destruct (claims s nonce) as [[r amt|n]|] eqn:C; [| |discriminate].
+    + inversion H; subst; clear H.
+      intros a Ha. repeat split; try (intros; left; reflexivity); try (intros; lia); try reflexivity.
+      * pose proof (CN _ _ _ C). proj. eqbs; fin.
+      * apply pool_kept_eq; reflexivity.
+      * apply bcalls_kept_eq; reflexivity.
+    + destruct (bcalls s n) as [bc|] eqn:B; [|discriminate]. inversion H; subst; clear H.
+      intros a Ha. repeat split; try (intros; left; reflexivity); try (intros; lia); try reflexivity.
+      * apply pool_kept_eq; reflexivity.
+      * intros n0 r x t Hb. unf_all. destruct (Z.eqb n0 n) eqn:Q.
+        -- right. zb. subst. exists nonce. split; [reflexivity|exact C].
+        -- left. exact Hb.
   - discriminate.
   - discriminate.
 Qed.
@@ -321,9 +375,9 @@ Proof.
   destruct (entry_ok_inv _ _ _ _ _ _ _ H) as (ro & _ & R).
   destruct (contract_run_ok _ _ _ _ _ _ R) as (_ & _ & _ & M).
   cbn [method_run] in M. ifs M. zb.
-  destruct W as (N & _ & _).
+  destruct W as (N & _).
   set (s0 := set_alw s (up3 (alw s) v from caller (alw s v from caller - sh))) in *.
-  destruct (ts_spec _ _ _ _ _ _ (N : rwd_nonneg s0) E M) as (_ & _ & A & _ & _ & _ & _ & DS & _).
+  destruct (ts_spec _ _ _ _ _ _ (N : rwd_nonneg s0) E M) as (_ & _ & A & _ & _ & _ & _ & _ & DS & _).
   split; [lia|]. split; [|exact DS].
   rewrite A. unfold s0. cbn. unfold up3. rewrite !Z.eqb_refl. reflexivity.
 Qed.
@@ -425,9 +479,324 @@ Qed.
 Definition ex_disabled : pst :=
   mkp (bal ex_state) (dlg ex_state) (rwd ex_state) (wdr ex_state) (alw ex_state) (unb ex_state) (rrd ex_state)
       (isval ex_state) (pool ex_state) (next_tx ex_state) (bcalls ex_state) (next_bc ex_state) true
-      ["0X0000000000000000000000000000000000001003/49DA433E"%string].
+      ["0X0000000000000000000000000000000000001003/49DA433E"%string] (tok ex_state) (tka ex_state) (claims ex_state).
 
 Theorem switch_nonvacuous :
   entry CALL false 0 0 (CApproveShares 0 2 5) ex_disabled = Some Err /\
   (exists s', entry CALL false 0 0 (CDelegateV2 0 5) ex_disabled = Some (Ok s')).
 Proof. split; [vm_compute; reflexivity|eexists; vm_compute; reflexivity]. Qed.
+
+(* ================================================================== *)
+(* the invariant is preserved: histories *)
+
+Lemma pool_some_le s id e : (forall i, next_tx s < i -> pool s i = None) -> pool s id = Some e -> id <= next_tx s.
+Proof. intros PF H. destruct (Z_le_gt_dec id (next_tx s)) as [L|G]; [exact L|]. rewrite PF in H by lia. discriminate. Qed.
+
+Ltac wf_goal N PF BF AN CN :=
+  repeat split;
+  [ (* rwd_nonneg *) intros ?a ?v; proj; eqbs; try (pose proof (N a v)); fin; try apply N
+  | (* pool fresh *) intros ?id ?L; proj; proj; cbn in *; eqbs; fin; try reflexivity; try (apply PF; cbn in *; lia)
+  | (* bcalls fresh *) intros ?n ?L; proj; proj; cbn in *; eqbs; fin; try reflexivity; try (apply BF; cbn in *; lia)
+  | (* allowances *) intros ?v ?o ?sp; proj; eqbs; fin; try apply AN
+  | (* claims *) intros ?n ?r ?x; proj; eqbs; fin; try (discriminate); try apply CN; try (intro; discriminate) ].
+
+Lemma method_run_wf caller value c s s' :
+  0 <= value -> wf_state s -> method_run caller value c s = Ok s' -> wf_state s'.
+Proof.
+  intros Hv W H. pose proof W as (N & PF & BF & AN & CN). destruct c; cbn [method_run] in H.
+  1-3,11-15: (inversion H; subst; exact W).
+  - (* approveShares *)
+    ifs H. inversion H; subst; clear H. zb. wf_goal N PF BF AN CN.
+  - (* transferShares *)
+    ifs H. zb. destruct (ts_spec _ _ _ _ _ _ N E H) as (B & U & A & P & BC & Wd & (T1 & T2 & T3 & T4 & T5) & D & DS & R).
+    repeat split.
+    + intros a v0. destruct (R a v0) as [->|[-> _]]; [apply N|lia].
+    + intros id L. rewrite P. apply PF. rewrite <- T4. exact L.
+    + intros n L. rewrite BC. apply BF. rewrite <- T5. exact L.
+    + intros v0 o sp. rewrite A. apply AN.
+    + intros n r x. rewrite T3. apply CN.
+  - (* transferFromShares *)
+    ifs H. zb.
+    set (s0 := set_alw s (up3 (alw s) v from caller (alw s v from caller - sh))) in *.
+    destruct (ts_spec _ _ _ _ _ _ (N : rwd_nonneg s0) E H) as (B & U & A & P & BC & Wd & (T1 & T2 & T3 & T4 & T5) & D & DS & R).
+    repeat split.
+    + intros a v0. destruct (R a v0) as [->|[-> _]]; [apply N|lia].
+    + intros id L. rewrite P. apply PF. change (next_tx s) with (next_tx s0). rewrite <- T4. exact L.
+    + intros n L. rewrite BC. apply BF. change (next_bc s) with (next_bc s0). rewrite <- T5. exact L.
+    + intros v0 o sp. rewrite A. unfold s0. cbn. unfold up3.
+      destruct (Z.eqb v0 v && Z.eqb o from && Z.eqb sp caller); [lia|apply AN].
+    + intros n r x. rewrite T3. apply CN.
+  - ifs H. inversion H; subst; clear H. zb. wf_goal N PF BF AN CN.
+  - ifs H; inversion H; subst; clear H; zb; wf_goal N PF BF AN CN.
+  - ifs H; inversion H; subst; clear H; zb; wf_goal N PF BF AN CN.
+  - ifs H; inversion H; subst; clear H; zb; wf_goal N PF BF AN CN.
+  - (* cancel *)
+    ifs H. destruct (pool s txid) as [[[[sd am] fe] tk]|] eqn:P; [|discriminate].
+    destruct (negb (sd =? caller)) eqn:SD; [discriminate|].
+    destruct tk; inversion H; subst; clear H; wf_goal N PF BF AN CN.
+  - (* increaseBridgeFee *)
+    ifs H. destruct (pool s txid) as [[[[sd am] fe] tk]|] eqn:P; [|discriminate]. destruct tk; [discriminate|].
+    pose proof (pool_some_le _ _ _ PF P). inversion H; subst; clear H. wf_goal N PF BF AN CN.
+  - (* crossChain *)
+    ifs H. inversion H; subst; clear H. wf_goal N PF BF AN CN.
+  - (* bridgeCall *)
+    ifs H. inversion H; subst; clear H. wf_goal N PF BF AN CN.
+  - (* crossChain, ERC-20 *)
+    ifs H. destruct (take_tok s caller (amt + fee)) as [s1|] eqn:T; [|discriminate].
+    destruct (take_tok_spec _ _ _ _ T) as (-> & _ & _). inversion H; subst; clear H. wf_goal N PF BF AN CN.
+  - (* increaseBridgeFee, ERC-20 *)
+    ifs H. destruct (take_tok s caller fee) as [s1|] eqn:T; [|discriminate].
+    destruct (take_tok_spec _ _ _ _ T) as (-> & _ & _).
+    match type of H with context [pool ?x txid] => change (pool x txid) with (pool s txid) in H end.
+    destruct (pool s txid) as [[[[sd am] fe] tk]|] eqn:P; [|discriminate]. destruct tk; [|discriminate].
+    pose proof (pool_some_le _ _ _ PF P). inversion H; subst; clear H. wf_goal N PF BF AN CN.
+  - (* bridgeCall, ERC-20 *)
+    ifs H. inversion H; subst; clear H. wf_goal N PF BF AN CN.
+  - (* executeClaim *)
+    ifs H. destruct (claims s nonce) as [[r amt|n]|] eqn:C; [| |discriminate].
+    + inversion H; subst; clear H. wf_goal N PF BF AN CN.
+    + destruct (bcalls s n) as [bc|] eqn:B; [|discriminate]. inversion H; subst; clear H. wf_goal N PF BF AN CN.
+  - discriminate.
+  - discriminate.
+Qed.
+
+Lemma entry_wf k st caller value c s s' :
+  0 <= value -> wf_state s -> entry k st caller value c s = Some (Ok s') -> wf_state s'.
+Proof.
+  intros Hv W H. destruct (entry_ok_inv _ _ _ _ _ _ _ H) as (ro & _ & R).
+  destruct (contract_run_ok _ _ _ _ _ _ R) as (_ & _ & _ & M).
+  apply (method_run_wf caller (eff_value k value) c s s'); try assumption. destruct k; cbn; lia.
+Qed.
+
+(* the precompiles never touch a reward withdraw address: nobody's rewards can be redirected through them *)
+Lemma method_run_wdr caller value c s s' : method_run caller value c s = Ok s' -> wdr s' = wdr s.
+Proof.
+  intro H. destruct c; cbn [method_run] in H; try (inversion H; subst; reflexivity); try discriminate.
+  all: try (ifs H; inversion H; subst; reflexivity).
+  - ifs H. unfold transfer_shares in H. ifs H; inversion H; subst; reflexivity.
+  - ifs H. unfold transfer_shares in H. ifs H; inversion H; subst; reflexivity.
+  - ifs H. destruct (pool s txid) as [[[[sd am] fe] tk]|]; [|discriminate]. ifs H; inversion H; subst; reflexivity.
+  - ifs H. destruct (pool s txid) as [[[[sd am] fe] tk]|]; [|discriminate]. destruct tk; [discriminate|]. inversion H; subst; reflexivity.
+  - ifs H. destruct (take_tok s caller (amt + fee)) as [s1|] eqn:T; [|discriminate].
+    destruct (take_tok_spec _ _ _ _ T) as (-> & _). inversion H; subst; reflexivity.
+  - ifs H. destruct (take_tok s caller fee) as [s1|] eqn:T; [|discriminate].
+    destruct (take_tok_spec _ _ _ _ T) as (-> & _).
+    match type of H with context [pool ?x txid] => destruct (pool x txid) as [[[[sd am] fe] tk]|] end; [|discriminate].
+    destruct tk; [|discriminate]. inversion H; subst; reflexivity.
+  - ifs H. destruct (claims s nonce) as [[r amt|n]|]; [| |discriminate].
+    + inversion H; subst; reflexivity.
+    + destruct (bcalls s n); [|discriminate]. inversion H; subst; reflexivity.
+Qed.
+
+(* what a non-CALL opcode lets through (read-only methods) changes nothing *)
+Lemma non_call_changes_nothing k st caller value c s s' :
+  k <> CALL -> entry k st caller value c s = Some (Ok s') -> s' = s.
+Proof.
+  intros Hk H. destruct (entry_ok_inv _ _ _ _ _ _ _ H) as (ro & Rr & R).
+  assert (ro = true) by (destruct k; [congruence| | |]; cbn in Rr; congruence). subst ro.
+  destruct (contract_run_ok _ _ _ _ _ _ R) as (_ & (m & F & G) & _ & M).
+  cbn [andb] in G. apply negb_false_iff in G.
+  destruct c; cbn [method_run] in M; try (inversion M; subst; reflexivity); try discriminate;
+    vm_compute in F; inversion F; subst m; discriminate G.
+Qed.
+
+(* ---- histories ---- *)
+
+Record hstep := mkstep { h_kind : callkind; h_static : bool; h_caller : acct; h_value : Z; h_call : call }.
+
+(* one precompile call of a history: a failed call leaves the state as it was (property C09) *)
+Definition do_step (s : pst) (x : hstep) : pst :=
+  match entry (h_kind x) (h_static x) (h_caller x) (h_value x) (h_call x) s with
+  | Some (Ok s') => s'
+  | _ => s
+  end.
+Definition run_hist (h : list hstep) (s : pst) : pst := fold_left do_step h s.
+Definition values_ok (h : list hstep) : Prop := Forall (fun x => 0 <= h_value x) h.
+
+Lemma do_step_wf s x : 0 <= h_value x -> wf_state s -> wf_state (do_step s x).
+Proof.
+  intros Hv W. unfold do_step.
+  destruct (entry (h_kind x) (h_static x) (h_caller x) (h_value x) (h_call x) s) as [[s'|]|] eqn:E; try exact W.
+  eapply entry_wf; eassumption.
+Qed.
+
+Theorem hist_wf : forall h s, wf_state s -> values_ok h -> wf_state (run_hist h s).
+Proof.
+  induction h as [|x h IH]; intros s W V; [exact W|].
+  inversion V; subst. cbn. apply IH; [apply do_step_wf; assumption|assumption].
+Qed.
+
+Lemma do_step_tp s x : 0 <= h_value x -> wf_state s -> tp_ok (h_caller x) (h_call x) s (do_step s x).
+Proof.
+  intros Hv W. unfold do_step.
+  destruct (entry (h_kind x) (h_static x) (h_caller x) (h_value x) (h_call x) s) as [[s'|]|] eqn:E;
+    try apply tp_ok_same.
+  eapply only_caller_pays; eassumption.
+Qed.
+
+(* every step of every history from a well-formed state: only the direct caller pays *)
+Theorem hist_only_caller_pays : forall h1 x h2 s0,
+  wf_state s0 -> values_ok (h1 ++ x :: h2) ->
+  tp_ok (h_caller x) (h_call x) (run_hist h1 s0) (do_step (run_hist h1 s0) x).
+Proof.
+  intros h1 x h2 s0 W V. unfold values_ok in V. apply Forall_app in V as [V1 V2]. inversion V2; subst.
+  apply do_step_tp; [assumption|apply hist_wf; assumption].
+Qed.
+
+(* an account that never calls and never granted an allowance loses nothing, over any history *)
+Definition never_calls (a : acct) (h : list hstep) : Prop := Forall (fun x => h_caller x <> a) h.
+
+Theorem hist_bystander : forall h s0 a,
+  wf_state s0 -> values_ok h -> never_calls a h -> (forall v sp, alw s0 v a sp = 0) ->
+  let s := run_hist h s0 in
+  bal s0 a <= bal s a /\ (forall v, dlg s0 a v <= dlg s a v) /\ (forall v, unb s0 a v <= unb s a v) /\
+  tok s0 a <= tok s a /\ tka s a = tka s0 a /\ (forall v sp, alw s v a sp = 0) /\
+  (forall id amt fee tk, pool s0 id = Some (a, amt, fee, tk) -> exists fee', pool s id = Some (a, amt, fee', tk) /\ fee <= fee').
+Proof.
+  induction h as [|x h IH]; intros s0 a W V NC A0; cbn zeta.
+  - cbn. repeat split; try lia; try reflexivity; try assumption.
+    intros id amt fee tk H. exists fee. split; [exact H|lia].
+  - inversion V; subst. inversion NC; subst.
+    pose proof (do_step_tp s0 x H1 W a (not_eq_sym H3)) as (B & U & D & _ & AL & PK & _ & TK & TA).
+    assert (A1 : forall v sp, alw (do_step s0 x) v a sp = 0).
+    { intros v sp. destruct (AL v sp) as [E|(_ & to & sh & _ & L & _)]; [rewrite E; apply A0|rewrite A0 in L; lia]. }
+    assert (D1 : forall v, dlg s0 a v <= dlg (do_step s0 x) a v).
+    { intro v. destruct (D v) as [L|(to & sh & _ & _ & L & _)]; [exact L|rewrite A0 in L; lia]. }
+    destruct (IH (do_step s0 x) a (do_step_wf _ _ H1 W) H2 H4 A1) as (B' & D' & U' & TK' & TA' & A' & P').
+    cbn [run_hist fold_left]. fold (run_hist h (do_step s0 x)).
+    repeat split.
+    + lia.
+    + intro v. specialize (D1 v). specialize (D' v). lia.
+    + intro v. specialize (U v). specialize (U' v). lia.
+    + lia.
+    + congruence.
+    + exact A'.
+    + intros id amt fee tk Hp. destruct (PK _ _ _ _ Hp) as (f1 & Hp1 & L1).
+      destruct (P' _ _ _ _ Hp1) as (f2 & Hp2 & L2). exists f2. split; [exact Hp2|lia].
+Qed.
+
+(* the allowance bounds what spenders can move out of a delegation, over any history *)
+Definition salw (s : pst) (v : valid) (a : acct) (L : list acct) : Z := fold_right (fun sp acc => alw s v a sp + acc) 0 L.
+
+Lemma salw_le s s' v a L : (forall sp, alw s' v a sp <= alw s v a sp) -> salw s' v a L <= salw s v a L.
+Proof. intro H. unfold salw. induction L as [|x L IH]; cbn; [lia|specialize (H x); lia]. Qed.
+
+Lemma salw_nonneg s v a L : (forall sp, 0 <= alw s v a sp) -> 0 <= salw s v a L.
+Proof. intro H. unfold salw. induction L as [|x L IH]; cbn; [lia|specialize (H x); lia]. Qed.
+
+Lemma salw_same s s' v a L : (forall sp, In sp L -> alw s' v a sp = alw s v a sp) -> salw s' v a L = salw s v a L.
+Proof.
+  unfold salw. induction L as [|x L IH]; intro H; [reflexivity|]. cbn.
+  rewrite (H x (or_introl eq_refl)), IH; [reflexivity|]. intros sp I. apply H. right. exact I.
+Qed.
+
+Lemma salw_one s s' v a L c sh :
+  NoDup L -> In c L -> (forall sp, sp <> c -> alw s' v a sp = alw s v a sp) -> alw s' v a c = alw s v a c - sh ->
+  salw s' v a L = salw s v a L - sh.
+Proof.
+  intros ND I O C. induction L as [|x L IH]; [destruct I|].
+  inversion ND as [|x' L' NI ND']; subst.
+  change (salw s' v a (x :: L)) with (alw s' v a x + salw s' v a L).
+  change (salw s v a (x :: L)) with (alw s v a x + salw s v a L).
+  destruct (Z.eq_dec x c) as [->|Nx].
+  - rewrite C, (salw_same s s' v a L); [lia|]. intros sp Isp. apply O. intro; subst. contradiction.
+  - rewrite (O x Nx). destruct I as [->|I]; [congruence|]. rewrite (IH ND' I). lia.
+Qed.
+
+Theorem hist_allowance_bound : forall h s0 a v L,
+  wf_state s0 -> values_ok h -> never_calls a h -> NoDup L -> Forall (fun x => In (h_caller x) L) h ->
+  dlg s0 a v - salw s0 v a L <= dlg (run_hist h s0) a v.
+Proof.
+  intros h s0 a v L W V NC ND CL.
+  assert (G : dlg s0 a v - salw s0 v a L <= dlg (run_hist h s0) a v - salw (run_hist h s0) v a L).
+  { revert s0 W V NC CL. induction h as [|x h IH]; intros s0 W V NC CL; [cbn; lia|].
+    inversion V; subst. inversion NC; subst. inversion CL; subst.
+    pose proof (do_step_tp s0 x H1 W a (not_eq_sym H3)) as (_ & _ & D & _ & AL & _).
+    cbn [run_hist fold_left]. fold (run_hist h (do_step s0 x)).
+    specialize (IH (do_step s0 x) (do_step_wf _ _ H1 W) H2 H4 H6).
+    assert (dlg s0 a v - salw s0 v a L <= dlg (do_step s0 x) a v - salw (do_step s0 x) v a L); [|lia].
+    destruct (D v) as [Lq|(to & sh & Ec & Ld & La & Ea)].
+    - assert (salw (do_step s0 x) v a L <= salw s0 v a L); [|lia].
+      apply salw_le. intro sp. destruct (AL v sp) as [E|(_ & to & sh & _ & Lx & Ex)]; [rewrite E; lia|rewrite Ex; lia].
+    - rewrite (salw_one s0 (do_step s0 x) v a L (h_caller x) sh ND H5); [lia| |exact Ea].
+      intros sp Nsp. destruct (AL v sp) as [E|(Esp & _)]; [exact E|congruence]. }
+  destruct (hist_wf h s0 W V) as (_ & _ & _ & AN & _).
+  pose proof (salw_nonneg (run_hist h s0) v a L (AN v a)). lia.
+Qed.
+
+(* calls that do not come through CALL change nothing, over any history *)
+Theorem hist_readonly_context : forall h s,
+  Forall (fun x => h_kind x <> CALL) h -> run_hist h s = s.
+Proof.
+  induction h as [|x h IH]; intros s F; [reflexivity|]. inversion F; subst. cbn.
+  assert (do_step s x = s).
+  { unfold do_step. destruct (entry (h_kind x) (h_static x) (h_caller x) (h_value x) (h_call x) s) as [[s'|]|] eqn:E; try reflexivity.
+    eapply non_call_changes_nothing; eassumption. }
+  rewrite H. apply IH. assumption.
+Qed.
+
+(* reward withdraw addresses are never changed, over any history *)
+Theorem hist_withdraw_address : forall h s, wdr (run_hist h s) = wdr s.
+Proof.
+  induction h as [|x h IH]; intro s; [reflexivity|]. cbn. rewrite IH. unfold do_step.
+  destruct (entry (h_kind x) (h_static x) (h_caller x) (h_value x) (h_call x) s) as [[s'|]|] eqn:E; try reflexivity.
+  destruct (entry_ok_inv _ _ _ _ _ _ _ E) as (ro & _ & R).
+  destruct (contract_run_ok _ _ _ _ _ _ R) as (_ & _ & _ & M). eapply method_run_wdr; exact M.
+Qed.
+
+(* a worked history on the example state: the victim (1) approved 30 to account 0; account 0 moves 10, then tries 25
+   (refused: 20 are left), a bystander (2) tries to take some (refused), account 0 moves the remaining 20, somebody
+   executes the pending deposit for account 2 and the attested result that closes the victim's bridge call *)
+Definition ex_hist : list hstep :=
+  [mkstep CALL false 0 0 (CTransferFromShares 0 1 0 10);
+   mkstep CALL false 0 0 (CTransferFromShares 0 1 0 25);
+   mkstep CALL false 2 0 (CTransferFromShares 0 1 2 1);
+   mkstep STATICCALL false 0 0 (CTransferFromShares 0 1 0 5);
+   mkstep CALL false 0 0 (CTransferFromShares 0 1 3 20);
+   mkstep CALL false 0 0 (CBridgeCallTok 1 600);
+   mkstep CALL false 0 0 (CBridgeCallTok 1 100);
+   mkstep CALL false 3 0 (CExecuteClaim 7);
+   mkstep CALL false 3 0 (CExecuteClaim 8)].
+
+Lemma ex_state_wf : wf_state ex_state.
+Proof.
+  repeat split; unfold rwd_nonneg; cbn.
+  - intros a v. destruct (Z.eqb a 1); lia.
+  - intros id L. destruct (Z.eqb id 1) eqn:E; [apply Z.eqb_eq in E; lia|reflexivity].
+  - intros n L. destruct (Z.eqb n 1) eqn:E; [apply Z.eqb_eq in E; lia|reflexivity].
+  - intros v o sp. destruct (Z.eqb o 1 && Z.eqb sp 0); lia.
+  - intros n r x. destruct (Z.eqb n 7); [intro H; inversion H; lia|]. destruct (Z.eqb n 8); discriminate.
+Qed.
+
+Theorem history_nonvacuous :
+  let s := run_hist ex_hist ex_state in
+  dlg s 1 0 = 70 /\ alw s 0 1 0 = 0 /\ dlg s 0 0 = 10 /\ dlg s 3 0 = 20 /\ dlg s 2 0 = 0 /\
+  tok s 0 = 400 /\ tok s 1 = 500 /\ bal s 2 = 1090 /\ bcalls s 1 = None /\ claims s 7 = None /\ claims s 8 = None /\
+  bcalls s 2 = Some (0, 1, 0, 100).
+Proof. vm_compute. repeat split. Qed.
+
+(* ERC-20: a call can only take the direct caller's tokens, and only consumes the direct caller's allowance *)
+Corollary tokens_only_callers : forall k st caller value c s s',
+  0 <= value -> wf_state s -> entry k st caller value c s = Some (Ok s') ->
+  forall a, a <> caller -> tok s a <= tok s' a /\ tka s' a = tka s a.
+Proof.
+  intros k st caller value c s s' Hv W H a Ha.
+  destruct (only_caller_pays _ _ _ _ _ _ _ Hv W H a Ha) as (_ & _ & _ & _ & _ & _ & _ & T & A). split; assumption.
+Qed.
+
+(* executeClaim carries the authority of the attested claim, not of whoever submits it: the outcome does not depend
+   on the caller, and a missing claim or a result for a vanished call is refused *)
+Theorem execute_claim_authority : forall c1 c2 v1 v2 n s,
+  method_run c1 v1 (CExecuteClaim n) s = method_run c2 v2 (CExecuteClaim n) s.
+Proof. reflexivity. Qed.
+
+Theorem execute_claim_needs_pending : forall k st caller value n s,
+  claims s n = None -> entry k st caller value (CExecuteClaim n) s <> None ->
+  entry k st caller value (CExecuteClaim n) s = Some Err.
+Proof.
+  intros k st caller value n s C NN.
+  destruct (entry k st caller value (CExecuteClaim n) s) as [[s'|]|] eqn:H; [|reflexivity|congruence].
+  exfalso. destruct (entry_ok_inv _ _ _ _ _ _ _ H) as (ro & _ & R).
+  destruct (contract_run_ok _ _ _ _ _ _ R) as (_ & _ & _ & M).
+  cbn [method_run] in M. rewrite C in M. destruct (n <=? 0); discriminate.
+Qed.
